@@ -16,7 +16,7 @@ RULE = ("alias chains over one register: bounded-exhaustive over register sizes 
         "2^k certain) and the pyGSTi label. non-trivial = chain has a strided or offset slice; distinct = (size, chain, style)")
 ASSUMPTIONS = ["model arithmetic on declarations (vf/meaning.py core_from_sx + Evaluator.elems)",
                "zero steps and out-of-range slices are not generated here (C14)"]
-TIERS = {"quick": {"shards": 8, "budget_s": 120}, "thorough": {"shards": 16, "budget_s": 600}}
+TIERS = {"quick": {"shards": 8, "budget_s": 240}, "thorough": {"shards": 16, "budget_s": 600}}
 REQUIRE = {"consumer:whole-register-argument": 5000, "consumer:resolution-in-context": 300, "consumer:resolution-in-context:argument-handed-to-an-inner-macro": 100, "invalid-reference:consumers-observed": 1000, "chain-with-slice-counting-down": 500, "references-checked": 2000, "consumer:resolve_qubit": 2000, "consumer:fill_in_map": 2000,
            "consumer:used_qubits": 2000, "consumer:emulator": 1000, "consumer:pygsti": 500, "style:let": 200, "style:override": 200,
            "style:default": 200, "depth>=2": 500, "position:macro-arg": 200, "position:macro-body": 200, "position:macro-index": 200, "position:single-in-shadowing-macro": 200}
